@@ -1219,7 +1219,13 @@ pub fn step_mkt(sim: &mut Sim, ctx: &mut Ctx) {
         14 => act_withdraw_boundary(sim, ctx),
         15 => act_deposit_boundary(sim, ctx),
         16 => act_hunter(sim, ctx),
-        17 => crate::actors_tx::act_flashloan(sim, ctx),
+        17 => {
+            if ctx.rng.chance(1, 3) {
+                crate::actors_tx::act_shape_fuzz(sim, ctx)
+            } else {
+                crate::actors_tx::act_flashloan(sim, ctx)
+            }
+        }
         18 => crate::actors_tx::act_bracket(sim, ctx, crate::actors_tx::BracketKind::Liquidation),
         19 => crate::actors_tx::act_bracket(sim, ctx, crate::actors_tx::BracketKind::Deleverage),
         20 => {
